@@ -1121,3 +1121,95 @@ func singleFieldStore(al *ssa.Alloc, f int) *ssa.Store {
 	}
 	return found
 }
+
+// threaded: a list value that crosses the boundary of a private helper. Result j of a call to a helper of the same package
+// stands for what the helper returns at position j (on each of its returns); a helper's parameter stands for the argument
+// at each of its call sites, provided the helper is unexported and every use of it is a static call in its own package.
+func threaded(L *Loaded, v ssa.Value) ([]ssa.Value, bool) {
+	helperOf := func(call *ssa.Call) *ssa.Function {
+		h := call.Common().StaticCallee()
+		if h == nil || len(h.Blocks) == 0 || h.Pkg == nil || call.Parent() == nil {
+			return nil
+		}
+		root := call.Parent()
+		for root.Parent() != nil {
+			root = root.Parent()
+		}
+		if root.Pkg != h.Pkg || !L.NonTest[originOf(h)] {
+			return nil
+		}
+		return h
+	}
+	switch x := v.(type) {
+	case *ssa.Extract:
+		call, ok := x.Tuple.(*ssa.Call)
+		if !ok {
+			return nil, false
+		}
+		h := helperOf(call)
+		if h == nil {
+			return nil, false
+		}
+		var out []ssa.Value
+		for _, r := range returnsOf(h) {
+			if x.Index >= len(r.Results) {
+				return nil, false
+			}
+			out = append(out, r.Results[x.Index])
+		}
+		return out, len(out) > 0
+	case *ssa.Call:
+		if _, isB := x.Common().Value.(*ssa.Builtin); isB {
+			return nil, false
+		}
+		h := helperOf(x)
+		if h == nil || h.Signature.Results().Len() != 1 {
+			return nil, false
+		}
+		var out []ssa.Value
+		for _, r := range returnsOf(h) {
+			out = append(out, r.Results[0])
+		}
+		return out, len(out) > 0
+	case *ssa.Parameter:
+		h := x.Parent()
+		if h == nil || h.Parent() != nil || h.Pkg == nil || token.IsExported(h.Name()) {
+			return nil, false
+		}
+		idx := -1
+		for i, p := range h.Params {
+			if p == x {
+				idx = i
+			}
+		}
+		if idx < 0 {
+			return nil, false
+		}
+		var out []ssa.Value
+		for _, f := range pkgFuncs(L, h.Pkg.Pkg.Path()) {
+			for _, w := range withClosures(f) {
+				for _, b := range w.Blocks {
+					for _, in := range b.Instrs {
+						if ci, isCall := in.(ssa.CallInstruction); isCall && ci.Common().StaticCallee() == h {
+							if idx >= len(ci.Common().Args) {
+								return nil, false
+							}
+							out = append(out, ci.Common().Args[idx])
+						}
+						for _, op := range in.Operands(nil) {
+							if op == nil || *op == nil || *op != ssa.Value(h) {
+								continue
+							}
+							if ci, isCall := in.(ssa.CallInstruction); isCall && ci.Common().Value == ssa.Value(h) {
+								continue
+							}
+							return nil, false // used as a value: unknown callers
+						}
+					}
+				}
+			}
+		}
+		return out, len(out) > 0
+	}
+	return nil, false
+}
